@@ -24,7 +24,7 @@ type Op struct {
 
 func (o Op) String() string {
 	switch o.Kind {
-	case "resync", "restart", "apirelease", "deleteapp", "syncpodips", "storeloss":
+	case "resync", "restart", "apirelease", "deleteapp", "syncpodips", "storeloss", "reload":
 		return o.Kind
 	case "sched":
 		return fmt.Sprintf("sched(p%d,node#%d)", o.A, o.B)
@@ -218,6 +218,9 @@ func (h *HistSys) Enabled(w *world.World) []Op {
 	if h.Ops["restart"] {
 		ops = append(ops, Op{Kind: "restart"})
 	}
+	if h.Ops["reload"] {
+		ops = append(ops, Op{Kind: "reload"})
+	}
 	if h.Ops["syncpodips"] {
 		ops = append(ops, Op{Kind: "syncpodips"})
 	}
@@ -321,6 +324,17 @@ func (h *HistSys) Apply(w *world.World, op Op) Obs {
 		}
 	case "restart":
 		if err := w.Restart(); err != nil {
+			o.Err = err.Error()
+		}
+	case "reload":
+		// the same pools in another spelling: the running instance rebuilds its tables from the stored objects (pending
+		// notifications stay pending, unlike across a restart)
+		if strings.HasSuffix(w.ConfigMap, " ") {
+			w.ConfigMap = strings.TrimSuffix(w.ConfigMap, " ")
+		} else {
+			w.ConfigMap += " "
+		}
+		if err := w.Reload(); err != nil {
 			o.Err = err.Error()
 		}
 	case "syncpodips":
